@@ -165,7 +165,8 @@ func (c *Channel) AuthenticateSSH(p, pp []byte) ([]byte, error) {
 		cr <- c.authenticateSSH(ctx, p, pp)
 	}()
 
-	t := time.NewTimer(c.TimeoutOps)
+	// a connection-wide timeout of zero means "no timeout" here as everywhere else, not "give up at once"
+	t := time.NewTimer(c.GetTimeout(c.TimeoutOps))
 
 	select {
 	case r := <-cr:
@@ -274,7 +275,8 @@ func (c *Channel) AuthenticateTelnet(u, p []byte) ([]byte, error) {
 		cr <- c.authenticateTelnet(ctx, u, p)
 	}()
 
-	t := time.NewTimer(c.TimeoutOps)
+	// a connection-wide timeout of zero means "no timeout" here as everywhere else, not "give up at once"
+	t := time.NewTimer(c.GetTimeout(c.TimeoutOps))
 
 	select {
 	case r := <-cr:
